@@ -6,7 +6,8 @@ from vlib import NoVerdict
 
 OWN = {
     "C07": {"sizes", "unique", "noSelf", "rightBucket", "ipBucket", "ipTable", "known", "noPanic"},
-    "C18": {"noEviction", "fullKeeps", "removalCause", "succession", "recordVersion", "endpointClearsLive", "creditKept", "creditSpent", "creditExhausted"},
+    "C18": {"noEviction", "fullKeeps", "removalCause", "succession", "recordVersion", "endpointClearsLive", "creditKept", "creditSpent", "creditExhausted",
+            "staleIgnored"},
 }
 
 
@@ -15,7 +16,9 @@ def design(ctx):
     thorough = ctx.tier == "thorough"
     vlib.tlc_design(ctx, M, "MC_RT_Member.cfg", timeout=1200)
     vlib.tlc_design(ctx, M, "MC_RT_Live.cfg", timeout=1800)
+    vlib.tlc_design(ctx, M, "MC_RT_Stale.cfg", timeout=600)       # liveness checks that outlive their entry (incarnations 0..2)
     if thorough:
+        vlib.tlc_design(ctx, M, "MC_RT_LiveGen2.cfg", timeout=3000)
         vlib.tlc_design(ctx, M, "MC_RT_Live4.cfg", timeout=3000)
         vlib.tlc_design(ctx, M, "MC_RT_Rec.cfg", timeout=3000)
     else:
@@ -25,13 +28,14 @@ def design(ctx):
         vlib.tlc_design(ctx, M, "MC_RT_DevEvict.cfg", timeout=300, expect_violation="Action property NoEvictionByNewcomer is violated.")
         vlib.tlc_design(ctx, M, "MC_RT_DevSeq.cfg", timeout=300, expect_violation="Action property RecordVersioning is violated.")
         vlib.tlc_design(ctx, M, "MC_RT_DevLive.cfg", timeout=300, expect_violation="Action property EndpointClearsLive is violated.")
+        vlib.tlc_design(ctx, M, "MC_RT_DevStale.cfg", timeout=300, expect_violation="Action property RemovalHasCause is violated.")
 
 
 def coverage(ctx, events):
     """What the recorded operations actually exercised (vacuity guard + evidence)."""
     c = {k: 0 for k in ("ops", "full_bucket_adds", "replacement_pushes", "replacement_overflows", "removals", "successions",
                         "record_changes", "endpoint_changes", "reval_dead_credit_left", "reval_dead_removed", "track_removed",
-                        "max_entries", "max_replacements", "snapshots", "buckets_used", "ip_limited_nets")}
+                        "max_entries", "max_replacements", "snapshots", "buckets_used", "ip_limited_nets", "stale_results", "stale_results_new_entry")}
     tab = {}
     used = set()
     for e in events:
@@ -86,6 +90,10 @@ def coverage(ctx, events):
                             c["endpoint_changes"] += 1
         if o["name"] == "reval" and o["isentry"] and not o["alive"] and o["credit"] // 3 > 0:
             c["reval_dead_credit_left"] += 1
+        if o["name"] == "revalstale":
+            c["stale_results"] += 1
+            if o["isentry"] and not o["alive"]:
+                c["stale_results_new_entry"] += 1
     c["buckets_used"] = len(used)
     return c
 
@@ -148,7 +156,7 @@ def run(ctx):
     if not ctx.violations and not ctx.replay:
         cov = ctx.cov["reached_serial"]
         need = ["full_bucket_adds", "replacement_overflows", "successions", "record_changes", "endpoint_changes",
-                "reval_dead_credit_left", "reval_dead_removed", "track_removed"]
+                "reval_dead_credit_left", "reval_dead_removed", "track_removed", "stale_results_new_entry"]
         missing = [k for k in need if cov[k] == 0]
         if missing or cov["max_entries"] < 16 or cov["max_replacements"] < 10 or cov["buckets_used"] < 5:
             raise NoVerdict("vacuity guard: the recorded operations never exercised %s (coverage %s)" % (missing, cov))
